@@ -570,7 +570,28 @@ def sibling_keyword_split(idx: ProgramIndex, rep: Report):
             if isinstance(t, ast.Compare) and len(t.ops) == 1 and isinstance(t.ops[0], (ast.Is, ast.IsNot)) and isinstance(t.left, ast.Call) and isinstance(t.left.func, ast.Attribute) \
                     and t.left.func.attr == "get" and chain(t.left.func.value) == kw and t.left.args and const_str(t.left.args[0]):
                 split.setdefault(const_str(t.left.args[0]), set()).add(name)
+    def splits(fi: FuncInfo, key: str) -> bool:
+        """a member call (not under `if False`) that is given `key` as its own keyword: key=x or **{..., key: x}"""
+        dead = {id(x) for i in ast.walk(fi.node) if isinstance(i, ast.If) and isinstance(i.test, ast.Constant) and not i.test.value for st in i.body for x in ast.walk(st)}
+        for c in ast.walk(fi.node):
+            if id(c) in dead or not isinstance(c, (ast.ListComp, ast.GeneratorExp, ast.For)):
+                continue
+            if "self.likelihoods" not in src(c.generators[0].iter if not isinstance(c, ast.For) else c.iter):
+                continue
+            for x in ast.walk(c):
+                # key=x at a call, a per-member dictionary {..., key: x}, or member_kwargs[key] = x inside the iteration
+                if isinstance(x, ast.Call) and any(k.arg == key for k in x.keywords):
+                    return True
+                if isinstance(x, ast.Dict) and any(const_str(kk) == key for kk in x.keys if kk is not None):
+                    return True
+                if isinstance(x, ast.Subscript) and isinstance(x.ctx, ast.Store) and const_str(x.slice) == key:
+                    return True
+        return False
+
     for key, where in sorted(split.items()):
+        where = {w for w in where if splits(L.methods[w], key)}
+        if not where:
+            raise AnalysisError("C12-3: no LikelihoodList method hands `%s` to its members one by one any more (anchor)" % key)
         for fi in delegating:
             ok = fi.name in where
             rep.add("C12-3", "%s:LikelihoodList.%s[per-member keyword `%s`]" % (L.module.name, fi.name, key), fi.where, ok,
